@@ -478,7 +478,7 @@ def run(rep, tier, seed):
              "B: case = (literal, formula shape in eq / in_re / and-of-three-atoms); C: case = tree -> derivation_tree_to_json -> "
              "json.loads -> from_parse_tree, and solve --tree / parse / check through cli.main; every case is non-trivial")
     rep.bound("A: all histories of length <= 4 over 9 actions (7380 per tree)"
-              + (" -- quick tier: all of length <= 3 (819) plus 400 sampled of length 4 per tree" if quick else " exhaustively")
+              + (" -- quick tier: all of length <= 3 (819) plus 1500 sampled of length 4 per tree" if quick else " exhaustively")
               + "; B: " + str(len(CRITICAL_LITERALS)) + " critical literals x 3 shapes"
               + ("" if quick else " plus all strings of length <= 2 over the alphabet a \" \\ \\n ä { } u") + "; C: named trees, fan/wide trees, "
               "6 solutions x 3 grammars through the CLI")
@@ -497,7 +497,7 @@ def run(rep, tier, seed):
         if quick:
             hs = [h for h in all_h if len(h) <= 3]
             rest = [h for h in all_h if len(h) == 4]
-            hs += random.Random(f"{seed}:{name}").sample(rest, 400)
+            hs += random.Random(f"{seed}:{name}").sample(rest, 1500)
         else:
             hs = all_h
         for i in range(0, len(hs), 60):
